@@ -4,6 +4,9 @@ Lib/Bytes.vos Lib/Bytes.vok Lib/Bytes.required_vos: Lib/Bytes.v
 Lib/Val.vo Lib/Val.glob Lib/Val.v.beautified Lib/Val.required_vo: Lib/Val.v Lib/Bytes.vo
 Lib/Val.vio: Lib/Val.v Lib/Bytes.vio
 Lib/Val.vos Lib/Val.vok Lib/Val.required_vos: Lib/Val.v Lib/Bytes.vos
+Lib/ListX.vo Lib/ListX.glob Lib/ListX.v.beautified Lib/ListX.required_vo: Lib/ListX.v 
+Lib/ListX.vio: Lib/ListX.v 
+Lib/ListX.vos Lib/ListX.vok Lib/ListX.required_vos: Lib/ListX.v 
 Model/Index.vo Model/Index.glob Model/Index.v.beautified Model/Index.required_vo: Model/Index.v Lib/Bytes.vo
 Model/Index.vio: Model/Index.v Lib/Bytes.vio
 Model/Index.vos Model/Index.vok Model/Index.required_vos: Model/Index.v Lib/Bytes.vos
@@ -22,15 +25,15 @@ Proofs/Walk.vos Proofs/Walk.vok Proofs/Walk.required_vos: Proofs/Walk.v Model/Da
 Proofs/DagApi.vo Proofs/DagApi.glob Proofs/DagApi.v.beautified Proofs/DagApi.required_vo: Proofs/DagApi.v Model/Dag.vo Proofs/Kahn.vo Proofs/Walk.vo
 Proofs/DagApi.vio: Proofs/DagApi.v Model/Dag.vio Proofs/Kahn.vio Proofs/Walk.vio
 Proofs/DagApi.vos Proofs/DagApi.vok Proofs/DagApi.required_vos: Proofs/DagApi.v Model/Dag.vos Proofs/Kahn.vos Proofs/Walk.vos
-Harness/Glue.vo Harness/Glue.glob Harness/Glue.v.beautified Harness/Glue.required_vo: Harness/Glue.v Lib/Bytes.vo Lib/Val.vo Model/Index.vo Model/Dag.vo Model/Git.vo Model/Tracking.vo Model/CfgFile.vo
-Harness/Glue.vio: Harness/Glue.v Lib/Bytes.vio Lib/Val.vio Model/Index.vio Model/Dag.vio Model/Git.vio Model/Tracking.vio Model/CfgFile.vio
-Harness/Glue.vos Harness/Glue.vok Harness/Glue.required_vos: Harness/Glue.v Lib/Bytes.vos Lib/Val.vos Model/Index.vos Model/Dag.vos Model/Git.vos Model/Tracking.vos Model/CfgFile.vos
+Harness/Glue.vo Harness/Glue.glob Harness/Glue.v.beautified Harness/Glue.required_vo: Harness/Glue.v Lib/Bytes.vo Lib/Val.vo Model/Index.vo Model/Dag.vo Model/Git.vo Model/Tracking.vo Model/CfgFile.vo Model/Sched.vo
+Harness/Glue.vio: Harness/Glue.v Lib/Bytes.vio Lib/Val.vio Model/Index.vio Model/Dag.vio Model/Git.vio Model/Tracking.vio Model/CfgFile.vio Model/Sched.vio
+Harness/Glue.vos Harness/Glue.vok Harness/Glue.required_vos: Harness/Glue.v Lib/Bytes.vos Lib/Val.vos Model/Index.vos Model/Dag.vos Model/Git.vos Model/Tracking.vos Model/CfgFile.vos Model/Sched.vos
 Harness/Extract.vo Harness/Extract.glob Harness/Extract.v.beautified Harness/Extract.required_vo: Harness/Extract.v Harness/Glue.vo
 Harness/Extract.vio: Harness/Extract.v Harness/Glue.vio
 Harness/Extract.vos Harness/Extract.vok Harness/Extract.required_vos: Harness/Extract.v Harness/Glue.vos
-Proofs/RenderProof.vo Proofs/RenderProof.glob Proofs/RenderProof.v.beautified Proofs/RenderProof.required_vo: Proofs/RenderProof.v Lib/Bytes.vo Lib/Val.vo Model/Index.vo Proofs/IndexProof.vo
-Proofs/RenderProof.vio: Proofs/RenderProof.v Lib/Bytes.vio Lib/Val.vio Model/Index.vio Proofs/IndexProof.vio
-Proofs/RenderProof.vos Proofs/RenderProof.vok Proofs/RenderProof.required_vos: Proofs/RenderProof.v Lib/Bytes.vos Lib/Val.vos Model/Index.vos Proofs/IndexProof.vos
+Proofs/RenderProof.vo Proofs/RenderProof.glob Proofs/RenderProof.v.beautified Proofs/RenderProof.required_vo: Proofs/RenderProof.v Lib/Bytes.vo Lib/Val.vo Lib/ListX.vo Model/Index.vo Proofs/IndexProof.vo
+Proofs/RenderProof.vio: Proofs/RenderProof.v Lib/Bytes.vio Lib/Val.vio Lib/ListX.vio Model/Index.vio Proofs/IndexProof.vio
+Proofs/RenderProof.vos Proofs/RenderProof.vok Proofs/RenderProof.required_vos: Proofs/RenderProof.v Lib/Bytes.vos Lib/Val.vos Lib/ListX.vos Model/Index.vos Proofs/IndexProof.vos
 Properties/C10.vo Properties/C10.glob Properties/C10.v.beautified Properties/C10.required_vo: Properties/C10.v Lib/Bytes.vo Lib/Val.vo Model/Index.vo Proofs/IndexProof.vo Proofs/RenderProof.vo
 Properties/C10.vio: Properties/C10.v Lib/Bytes.vio Lib/Val.vio Model/Index.vio Proofs/IndexProof.vio Proofs/RenderProof.vio
 Properties/C10.vos Properties/C10.vok Properties/C10.required_vos: Properties/C10.v Lib/Bytes.vos Lib/Val.vos Model/Index.vos Proofs/IndexProof.vos Proofs/RenderProof.vos
@@ -106,3 +109,24 @@ Properties/C18.vos Properties/C18.vok Properties/C18.required_vos: Properties/C1
 AsFound/C17.vo AsFound/C17.glob AsFound/C17.v.beautified AsFound/C17.required_vo: AsFound/C17.v Model/CfgFile.vo Properties/C17.vo Properties/C18.vo
 AsFound/C17.vio: AsFound/C17.v Model/CfgFile.vio Properties/C17.vio Properties/C18.vio
 AsFound/C17.vos AsFound/C17.vok AsFound/C17.required_vos: AsFound/C17.v Model/CfgFile.vos Properties/C17.vos Properties/C18.vos
+Model/Sched.vo Model/Sched.glob Model/Sched.v.beautified Model/Sched.required_vo: Model/Sched.v 
+Model/Sched.vio: Model/Sched.v 
+Model/Sched.vos Model/Sched.vok Model/Sched.required_vos: Model/Sched.v 
+Proofs/SchedProof.vo Proofs/SchedProof.glob Proofs/SchedProof.v.beautified Proofs/SchedProof.required_vo: Proofs/SchedProof.v Model/Sched.vo
+Proofs/SchedProof.vio: Proofs/SchedProof.v Model/Sched.vio
+Proofs/SchedProof.vos Proofs/SchedProof.vok Proofs/SchedProof.required_vos: Proofs/SchedProof.v Model/Sched.vos
+Properties/C04.vo Properties/C04.glob Properties/C04.v.beautified Properties/C04.required_vo: Properties/C04.v Model/Sched.vo Proofs/SchedProof.vo
+Properties/C04.vio: Properties/C04.v Model/Sched.vio Proofs/SchedProof.vio
+Properties/C04.vos Properties/C04.vok Properties/C04.required_vos: Properties/C04.v Model/Sched.vos Proofs/SchedProof.vos
+Proofs/SchedFinal.vo Proofs/SchedFinal.glob Proofs/SchedFinal.v.beautified Proofs/SchedFinal.required_vo: Proofs/SchedFinal.v Lib/ListX.vo Model/Sched.vo Proofs/SchedProof.vo
+Proofs/SchedFinal.vio: Proofs/SchedFinal.v Lib/ListX.vio Model/Sched.vio Proofs/SchedProof.vio
+Proofs/SchedFinal.vos Proofs/SchedFinal.vok Proofs/SchedFinal.required_vos: Proofs/SchedFinal.v Lib/ListX.vos Model/Sched.vos Proofs/SchedProof.vos
+Properties/C05.vo Properties/C05.glob Properties/C05.v.beautified Properties/C05.required_vo: Properties/C05.v Model/Sched.vo Proofs/SchedProof.vo Proofs/SchedFinal.vo
+Properties/C05.vio: Properties/C05.v Model/Sched.vio Proofs/SchedProof.vio Proofs/SchedFinal.vio
+Properties/C05.vos Properties/C05.vok Properties/C05.required_vos: Properties/C05.v Model/Sched.vos Proofs/SchedProof.vos Proofs/SchedFinal.vos
+Properties/C06.vo Properties/C06.glob Properties/C06.v.beautified Properties/C06.required_vo: Properties/C06.v Model/Sched.vo Proofs/SchedProof.vo Proofs/SchedFinal.vo
+Properties/C06.vio: Properties/C06.v Model/Sched.vio Proofs/SchedProof.vio Proofs/SchedFinal.vio
+Properties/C06.vos Properties/C06.vok Properties/C06.required_vos: Properties/C06.v Model/Sched.vos Proofs/SchedProof.vos Proofs/SchedFinal.vos
+Properties/C16.vo Properties/C16.glob Properties/C16.v.beautified Properties/C16.required_vo: Properties/C16.v Model/Sched.vo Proofs/SchedProof.vo
+Properties/C16.vio: Properties/C16.v Model/Sched.vio Proofs/SchedProof.vio
+Properties/C16.vos Properties/C16.vok Properties/C16.required_vos: Properties/C16.v Model/Sched.vos Proofs/SchedProof.vos
